@@ -206,7 +206,7 @@ def families(tier):
     kinds = ["output", "next", "prev", "linear", "step", "stack", "avg", "avg_step", "sum", "sum_per_time"]
     for kind in kinds:
         for masked in (False, True):
-            variants = [(36, 4)] if q else [(36, 5), (24, 5), (60, 6)]
+            variants = [(36, 5)] if q else [(36, 5), (24, 5), (60, 6), (36, 7)]
             if kind == "output":
                 # direct pulls strictly between two publications: nearer the older one (32 h), nearer the newer one
                 # (64 h), on a publication (96 h); 8 h: three pulls per publication interval
